@@ -55,6 +55,9 @@ pub enum CidForm {
     Dup,
     /// a long value with multi-byte characters at varying byte offsets (k ASCII bytes first)
     LongNonAscii(u8),
+    /// a well-formed id that is NOT this client's but is derived from it (halves swapped, the same
+    /// bit flipped in both halves, a single-bit near miss, bytes reversed): never listed
+    Related(u8),
     /// two X-Client-Id headers with DIFFERENT ids: this client's and one that is not on the
     /// allow-list (true: this client's id first)
     DupMixed(bool),
@@ -202,6 +205,7 @@ fn gen_wire_op(r: &mut Rng, n_clients: u8, page: u32, allow_big: bool) -> WireOp
                     CidForm::Absent, CidForm::Empty, CidForm::NonAscii, CidForm::HighBytes, CidForm::TooShort, CidForm::TooLong, CidForm::Garbage,
                     CidForm::Braced, CidForm::Urn, CidForm::Simple, CidForm::Upper, CidForm::Padded, CidForm::Dup,
                     CidForm::DupMixed(true), CidForm::DupMixed(false), CidForm::DupMixed(false),
+                    CidForm::Related(0), CidForm::Related(1), CidForm::Related(2), CidForm::Related(3),
                     CidForm::LongNonAscii(0), CidForm::LongNonAscii(1), CidForm::LongNonAscii(2), CidForm::LongNonAscii(35), CidForm::LongNonAscii(33),
                 ])
             }
@@ -341,6 +345,8 @@ struct Built {
     cid_ambiguous: bool,
     /// duplicate client-id headers naming a listed and an unlisted client
     mixed_dup: bool,
+    /// the client id the request actually carries when it is not `op.c`'s
+    effective: Option<Uuid>,
     /// the protocol request this is a form of (routes with semantics only)
     req: Option<Req>,
     big: bool,
@@ -447,6 +453,7 @@ fn build(plan: &WirePlan, w: &World, op: &WireOp, cur_allow: &Option<HashSet<Uui
     let mut cid_bad = false;
     let mut cid_ambiguous = false;
     let mut mixed_dup = false;
+    let mut effective: Option<Uuid> = None;
     let protocol_route = !matches!(op.route, Route::Index | Route::Unknown(_));
     let h = "X-Client-Id".to_string();
     match op.cid {
@@ -463,6 +470,28 @@ fn build(plan: &WirePlan, w: &World, op: &WireOp, cur_allow: &Option<HashSet<Uui
         CidForm::HighBytes => {
             cid_bad = true;
             headers.push((h, vec![0xff, 0xfe, 0x80, 0x81]))
+        }
+        CidForm::Related(k) => {
+            let b = *cid.as_bytes();
+            let mut o = b;
+            match k % 4 {
+                0 => {
+                    o[..8].copy_from_slice(&b[8..]);
+                    o[8..].copy_from_slice(&b[..8]);
+                }
+                1 => {
+                    o[3] ^= 0x10;
+                    o[11] ^= 0x10;
+                }
+                2 => o[15] ^= 0x01,
+                _ => o.reverse(),
+            }
+            let rid = Uuid::from_bytes(o);
+            if rid == cid {
+                o[0] ^= 0x80;
+            }
+            effective = Some(Uuid::from_bytes(o));
+            headers.push((h, Uuid::from_bytes(o).to_string().into_bytes()))
         }
         CidForm::LongNonAscii(k) => {
             cid_bad = true;
@@ -652,6 +681,7 @@ fn build(plan: &WirePlan, w: &World, op: &WireOp, cur_allow: &Option<HashSet<Uui
         cid_bad,
         cid_ambiguous,
         mixed_dup,
+        effective,
         req,
         big,
         label,
@@ -722,7 +752,12 @@ pub fn exec(plan: &WirePlan) -> RunOut {
         let b = build(plan, &w, op, &cur_allow);
         let cid = client_id(plan.seed, op.c);
         let protocol_route = !matches!(op.route, Route::Index | Route::Unknown(_));
-        let is_listed = listed(&cid, &cur_allow);
+        // a derived id is some other (never seen) client: with a list it must be refused; without a
+        // list it is simply an unknown client, which this executor does not model -> skip
+        if b.effective.is_some() && cur_allow.is_none() {
+            continue;
+        }
+        let is_listed = listed(&b.effective.unwrap_or(cid), &cur_allow);
         let unlisted = protocol_route && !b.cid_bad && !is_listed;
         let route_tag = match op.route {
             Route::AddVersion => "av",
